@@ -47,6 +47,11 @@ SETUP = [
     ('alloc_put', 39, cons(2, None, [(2, [(0, 1)])])),
     ('alloc_put', 39, cons(3, None, [(1, [(0, 2)]), (4, [(2, 10)])])),
 ]
+# the C09 scenarios are compared with Model/ConcTree.v: same tree, standard classes only
+TREE_SETUP = [op for op in SETUP if op[0] not in ('rc_create', 'trait_put') and not (op[0] == 'inv_set' and any(i['rc'] >= 1000 for i in op[4]))
+              and not (op[0] == 'traits_set')]
+TREE_SETUP = [op if op[0] != 'aggs_set' else (op[0], op[1], op[2], op[3] - (1 if op[2] == 1 else 0), op[4]) for op in TREE_SETUP]
+TREE_SETUP.insert(TREE_SETUP.index(('rp_create', 39, 3, 3, None)), ('inv_set', 39, 2, 0, [inv(0, 8)]))
 # provider generations after the set-up: 1: inv, traits, aggs, alloc = 4; 2: inv, aggs, alloc = 3; 3: 0; 4: inv, alloc = 2; 5: 0; 6: 1
 G = {1: 4, 2: 3, 3: 0, 4: 2, 5: 0, 6: 1}
 
@@ -188,12 +193,13 @@ def run(pid, tier, seed):
     per = BUDGET[tier]
     stats = {'scenarios': 0, 'schedules': 0, 'outcomes': collections.Counter(), 'known_pattern_schedules': 0}
     viols = []
+    tree_cases = []
     for name, reqs in SCENARIOS[pid]:
-        scn = conc.Scenario(name, SETUP, reqs, [])
+        scn = conc.Scenario(name, TREE_SETUP if pid == 'C09' else SETUP, reqs, [])
         app = conc.start(scn)
         start_dump = ops.canon_dump(app.raw_dump())
         gens = {r[0]: r[2] for r in start_dump[0]}
-        assert all(gens.get(u) == g for u, g in G.items()), ('set-up generations differ from the table G', gens)
+        assert pid == 'C09' or all(gens.get(u) == g for u, g in G.items()), ('set-up generations differ from the table G', gens)
         stats['scenarios'] += 1
         seen = set()
         runs = []
@@ -212,6 +218,8 @@ def run(pid, tier, seed):
                 if len(runs) >= per:
                     break
         for used, obs, dump in runs:
+            if pid == 'C09':
+                tree_cases.append((scn, list(used), [o[0] for o in obs], dump))
             stats['schedules'] += 1
             stats['outcomes'][str(tuple(o[0] for o in obs))] += 1
             for kind, text in judge(pid, scn, obs, dump, start_dump):
@@ -221,7 +229,41 @@ def run(pid, tier, seed):
                 viols.append({'payload': {'kind': 'schedule-extra', 'scenario': scn.to_json(), 'schedule': list(used),
                                           'statuses': [o[0] for o in obs], 'check': kind}, 'text': text})
     stats['outcomes'] = dict(stats['outcomes'])
-    return {'violations': viols, 'stats': stats}
+    res = {'violations': viols, 'stats': stats}
+    if pid == 'C09':
+        # provider create / update / delete are modelled under interleaving (Model/ConcTree.v, theorems C09_forest_all_schedules
+        # ...): every executed schedule is replayed in the model - statuses and core tables must agree
+        try:
+            bad = tree_model_check(tree_cases)
+            stats['model_compared_schedules'] = len(tree_cases)
+            stats['model_disagreements'] = len(bad)
+            if bad:
+                c = tree_cases[bad[0]]
+                res['model_error'] = ('Model/ConcTree.v disagrees with the service on %d of %d schedules; first: scenario %s schedule %r '
+                                      'statuses %r' % (len(bad), len(tree_cases), c[0].name, c[1], c[2]))
+        except Exception as exc:        # noqa
+            res['model_error'] = 'Model/ConcTree.v could not be evaluated: %s' % str(exc)[-500:]
+    return res
+
+
+def tree_model_check(cases):
+    """cases: [(scenario, used schedule, statuses, dump)] -> indices on which tt_sched_agrees is false"""
+    from harness import coqrun
+    import tempfile
+    workdir = tempfile.mkdtemp(prefix='pvtree', dir='/dev/shm')
+    path = os.path.join(workdir, 'tree_cases.v')
+    with open(path, 'w') as f:
+        f.write('From PV Require Import Model.ConcTree.\nDefinition cf := mkCfg 0 0.\n')
+        f.write('Definition setup := %s.\n' % ops.lst(ops.op_coq(o, {}) for o in TREE_SETUP))
+        for i, (scn, used, sts, dmp) in enumerate(cases):
+            f.write('Definition c%d := tt_sched_agrees cf (setup, %s, %s, %s, %s).\n' % (
+                i, ops.lst(ops.op_coq(o, {}) for o in scn.requests), ops.lst(ops.z(x) for x in used),
+                ops.lst(ops.z(x) for x in sts), ops.dump_coq(dmp)))
+        f.write('Eval vm_compute in [%s].\n' % '; '.join('(if c%d then 1 else 0)' % i for i in range(len(cases))))
+    vals = coqrun.run_coq(path, timeout=1200)
+    import shutil
+    shutil.rmtree(workdir, ignore_errors=True)
+    return [i for i, v in enumerate(vals) if v != 1]
 
 
 def replay(pid, path):
